@@ -54,7 +54,8 @@ class PG:
     def __init__(self, rng, exprs, features=None):
         self.r = rng
         self.x = exprs
-        self.f = features or {"loops", "macros", "chains", "sets", "calls", "include", "import", "extends", "autoescape", "control"}
+        self.f = features or {"loops", "macros", "chains", "sets", "calls", "include", "import", "extends", "autoescape", "control", "blockrefs"}
+        self.in_macro = 0
         self.macros = []          # (name, nparams, has_caller)
         self.uid = 0
         self.templates = {}
@@ -271,6 +272,37 @@ class PG:
                          "{% if ys.clear is defined %}{% do ys.clear() %}{% endif %}", "{% if ys.insert is defined %}{% do ys.insert(0, 9) %}{% endif %}"])
         return "{% set ys = " + src + "|" + f + " %}" + mut + "|" + self.again(src, ty) + self.again(src, ty)
 
+    # ---- block references as expressions ------------------------------------------------------------------------------
+    def ref_uses(self, call):
+        """`self.<block>()` / `super()` as plain output, operand of `~`, argument of |e / |string, set target"""
+        r = self.r
+        forms = ["{{ %s }}" % call, "{{ %s ~ '<&>' }}" % call, "{{ '<b>' ~ %s }}" % call, "{{ %s|e }}" % call, "{{ %s|string }}" % call,
+                 "{%% set bt = %s %%}{{ bt }}{{ bt|e }}" % call, "{{ %s|upper }}" % call, "{{ %s ~ s }}" % call, "{{ [%s, '<i>']|join('&') }}" % call,
+                 "{{ %s|length }}" % call, "{{ %s|escape|string ~ m }}" % call, "{{ (%s)|safe ~ '<' }}" % call]
+        return "".join(self.pick(forms) for _ in range(r.randrange(1, 4)))
+
+    def region(self, inner):
+        """an autoescape region that may differ from the environment's setting"""
+        k = self.r.random()
+        if k < 0.4:
+            return "{% autoescape true %}" + inner + "{% endautoescape %}"
+        if k < 0.8:
+            return "{% autoescape false %}" + inner + "{% endautoescape %}"
+        if k < 0.9:
+            return "{% autoescape b %}" + inner + "{% endautoescape %}"
+        return inner
+
+    def blockref(self):
+        """a block whose body holds markup characters from data, then references to it as expressions"""
+        self.feat.add("block-reference-expr")
+        self.uid += 1
+        name = "t%d" % self.uid
+        body = self.pick(["<{{ s }}&{{ m }}>", "<a&b>{{ u }}", "{{ s }}", "{{ ms|join('&') }}<i>", "{{ m }}&amp;{{ s|e }}", "<p>{{ i }}</p>", "{{ s ~ '&' ~ u }}"])
+        block = "{% block " + name + self.pick(["", " scoped"]) + " %}" + body + "{% endblock %}"
+        if self.r.random() < 0.3:
+            block = self.region(block)
+        return block + self.region(self.ref_uses("self.%s()" % name)) + (self.ref_uses("self.%s()" % name) if self.r.random() < 0.3 else "")
+
     # ---- statements ---------------------------------------------------------------------------------------------
     def text(self):
         return self.pick(["x", "Hello ", "\n", "<p>", " & ", "ä", "1 2", "--", "  ", ";", "[", "]"])
@@ -354,6 +386,13 @@ class PG:
                 + "{% if nd.children %}(" + "{{ loop(nd.children) }}" + "){% endif %}{% else %}empty{% endfor %}")
 
     def macro_def(self, d):
+        self.in_macro += 1
+        try:
+            return self._macro_def(d)
+        finally:
+            self.in_macro -= 1
+
+    def _macro_def(self, d):
         r = self.r
         self.feat.add("macro")
         name = "m%d" % len(self.macros)
@@ -376,9 +415,16 @@ class PG:
         return "{% macro " + name + sig + " %}" + body + "{% endmacro %}"
 
     def macro_use(self, d):
+        self.in_macro += 1
+        try:
+            return self._macro_use(d)
+        finally:
+            self.in_macro -= 1
+
+    def _macro_use(self, d):
         r = self.r
         if not self.macros:
-            return self.macro_def(d) + self.macro_use(d)
+            return self._macro_def(d) + self._macro_use(d)
         name, np, caller = self.pick(self.macros)
         arg = self.any_e()
         if caller == "arg":
@@ -414,6 +460,8 @@ class PG:
                 kinds += ["chain", "chain", "reuse", "reuse", "setmut"]
             if "autoescape" in self.f:
                 kinds += ["autoescape"]
+            if "blockrefs" in self.f and not self.in_macro:
+                kinds += ["blockref", "blockref"]
             if "include" in self.f and "inc" in self.templates:
                 kinds += ["include"]
             if "import" in self.f and "lib" in self.templates:
@@ -425,6 +473,8 @@ class PG:
             return self.out()
         if k == "chain":
             return "{{ %s }}" % self.chain(self.pick(["str", "str", "int"]))
+        if k == "blockref":
+            return self.blockref()
         if k == "reuse":
             return self.reuse()
         if k == "setmut":
